@@ -24,6 +24,7 @@ import (
 	"os/exec"
 	"strings"
 	"sync"
+	"sync/atomic"
 	"time"
 
 	"verifharness/hxlib"
@@ -56,6 +57,9 @@ type caseSpec struct {
 	Late string `json:"late,omitempty"`
 	// Wide marks a session with many connections per pair (beyond 1..4).
 	Wide bool `json:"wide,omitempty"`
+	// Data: the data phase overlaps the setup phase - every party sends and
+	// receives on all its connections as soon as its own Connect returned.
+	Data *dataSpec `json:"data,omitempty"`
 }
 
 type gate struct {
@@ -69,6 +73,7 @@ type caseResult struct {
 	End      string           `json:"end"` // final | deadlock | error
 	Fails    []map[string]any `json:"fails"`
 	Counters map[string]int   `json:"counters"`
+	Data     string           `json:"data,omitempty"` // bytes received/bytes sent of the data phase
 	Retries  int              `json:"retries"`
 	WallMs   int              `json:"wall_ms"`
 }
@@ -129,7 +134,25 @@ func genCaseNM(r *hxlib.Rng, idx int, tier string, n, m int) caseSpec {
 		cs.QuietMs = 6000
 		cs.DeadMs = 60000
 	}
+	// two sessions out of three: the data phase overlaps the setup phase
+	// (3 is coprime to the periods of (n, m), profile and start mode)
+	if idx%3 != 0 {
+		class := dataClasses[(idx/3)%len(dataClasses)]
+		if idx%97 == 5 {
+			class = "big"
+		}
+		cs.Data = genData(r, class, tier)
+	}
 	return cs
+}
+
+func genData(r *hxlib.Rng, class, tier string) *dataSpec {
+	d := &dataSpec{Class: class, Seed: r.U64(), Bursts: 1 + r.Intn(3), Flush: []string{"end", "each"}[r.Intn(2)],
+		QuietMs: 5000}
+	if tier == "thorough" {
+		d.QuietMs = 10000
+	}
+	return d
 }
 
 // genLate builds a session in which one party is late by far more than any
@@ -157,6 +180,9 @@ func genLate(r *hxlib.Rng, idx int, kind string, ms int, tier string) caseSpec {
 	}
 	cs.Late = fmt.Sprintf("%s:%d", kind, ms)
 	cs.DeadMs += ms
+	// the parties that are not late use their connections while the late one
+	// has not even started to accept
+	cs.Data = genData(r, []string{"tiny", "mixed", "kb"}[idx%3], tier)
 	return cs
 }
 
@@ -172,6 +198,8 @@ func main() {
 		os.Exit(oneMain(os.Args[2:]))
 	case "witness":
 		os.Exit(witnessMain(os.Args[2:]))
+	case "replay":
+		os.Exit(replayMain(os.Args[2:]))
 	default:
 		fmt.Fprintf(os.Stderr, "unknown mode %q\n", os.Args[1])
 		os.Exit(2)
@@ -237,6 +265,10 @@ func meshMain(args []string) int {
 			i := len(specs)
 			cs := genCaseNM(rng.Fork(), i, cf.Tier, n, m)
 			cs.Wide = true
+			cs.Data = nil
+			if i%2 == 0 {
+				cs.Data = genData(rng.Fork(), []string{"tiny", "small"}[(i/2)%2], cf.Tier)
+			}
 			cs.DeadMs += 200 * n * m
 			cs.Port = 10000 + ((pid*131+i)%2750)*8
 			specs = append(specs, cs)
@@ -248,6 +280,7 @@ func meshMain(args []string) int {
 	}
 	results := make([]*caseResult, len(specs))
 	var wg sync.WaitGroup
+	var failed atomic.Int64
 	sem := make(chan struct{}, par)
 	for _, i := range order {
 		if cf.Only >= 0 && i != cf.Only {
@@ -255,10 +288,21 @@ func meshMain(args []string) int {
 		}
 		wg.Add(1)
 		sem <- struct{}{}
+		// a failing session costs its timeouts: once enough sessions have
+		// failed the remaining ones add nothing to the verdict
+		if failed.Load() >= 6 {
+			<-sem
+			wg.Done()
+			o.Count("sessions_skipped_after_6_failing_sessions")
+			continue
+		}
 		go func(i int) {
 			defer wg.Done()
 			defer func() { <-sem }()
 			results[i] = runChild(self, specs[i])
+			if len(results[i].Fails) > 0 {
+				failed.Add(1)
+			}
 		}(i)
 	}
 	wg.Wait()
@@ -266,11 +310,48 @@ func meshMain(args []string) int {
 		if res == nil {
 			continue
 		}
-		cs := specs[i]
+		emit(o, i, specs[i], res)
+	}
+	return 0
+}
+
+// opLine / resultLine: the op line of a recorded session and the real
+// outcome in the form the model driver prints.
+func opLine(cs caseSpec, res *caseResult) string {
+	op := fmt.Sprintf("c19 %d %d %s", cs.N, cs.M, res.Trace)
+	if cs.Strict {
+		op += " strict"
+	}
+	if cs.Data != nil {
+		op += " data"
+	}
+	return op
+}
+
+func resultLine(cs caseSpec, res *caseResult) string {
+	r := "run=ok end=" + res.End
+	if cs.Data != nil && res.Data != "" {
+		r += " data=" + res.Data
+	}
+	return r
+}
+
+func emit(o *hxlib.Out, i int, cs caseSpec, res *caseResult) {
+	{
 		spec, _ := json.Marshal(cs)
-		op := fmt.Sprintf("c19 %d %d %s", cs.N, cs.M, res.Trace)
-		o.Op(op, "run=ok end="+res.End)
+		o.Op(opLine(cs, res), resultLine(cs, res))
 		o.Count("sessions")
+		if cs.Data != nil {
+			o.Count("data_sessions")
+			o.Count("data_class_" + cs.Data.Class)
+			o.Count("data_flush_" + cs.Data.Flush)
+			o.Count(fmt.Sprintf("data_bursts_%d", cs.Data.Bursts))
+			if res.Counters["data_streams_flushed_before_accept"] > 0 {
+				o.Count("data_sessions_with_data_flushed_before_accept")
+				o.Count("data_before_accept_profile_" + cs.Profile)
+				o.Count("data_before_accept_class_" + cs.Data.Class)
+			}
+		}
 		if cs.Wide {
 			o.Count("wide_sessions")
 			o.Count(fmt.Sprintf("wide_n%d_m%d", cs.N, cs.M))
@@ -295,17 +376,40 @@ func meshMain(args []string) int {
 			if cs.Late != "" {
 				f["late"] = cs.Late
 			}
-			f["spec"] = string(spec)
+			fspec := spec
+			// data that was sent before the receiving party accepted the
+			// connection: the replay forces that observed order (the receiver's
+			// Accepts wait for the sender's first flushes) instead of hoping
+			// that the OS scheduler repeats it
+			if early, _ := f["sent_before_accept"].(bool); early && len(cs.Gates) == 0 {
+				if rcv := toInt(f["receiver"]); rcv > 0 {
+					g := cs
+					g.Gates = []gate{{At: fmt.Sprintf("accept.%d", rcv), Until: fmt.Sprintf("sent.%d", toInt(f["sender"]))}}
+					fspec, _ = json.Marshal(g)
+					f["spec_as_generated"] = string(spec)
+					f["replay_forces"] = "observed order: every Accept of the receiver waits (at most 1.5 s) until the sender's first bursts are flushed"
+				}
+			}
+			f["spec"] = string(fspec)
 			f["trace"] = clip(res.Trace, 6000)
-			f["rerun"] = fmt.Sprintf("c19 one -case '%s'", spec)
+			f["rerun"] = fmt.Sprintf("c19 one -case '%s'", fspec)
 			o.Fail(sig, f)
 		}
 		if i < 3 {
 			o.Sample(map[string]any{"case": i, "n": cs.N, "m": cs.M, "order": cs.Order, "mode": cs.Mode,
-				"profile": cs.Profile, "end": res.End, "events": strings.Count(res.Trace, ",") + 1})
+				"profile": cs.Profile, "end": res.End, "events": strings.Count(res.Trace, ",") + 1, "data": cs.Data})
 		}
 	}
-	return 0
+}
+
+func toInt(v any) int {
+	switch x := v.(type) {
+	case int:
+		return x
+	case float64:
+		return int(x)
+	}
+	return -1
 }
 
 func clip(s string, n int) string {
@@ -379,7 +483,22 @@ func witnessSpecs() []caseSpec {
 	w3.Order = []int{2, 3, 1}
 	w3.Gates = []gate{{At: "connect.0", Until: "h.3"}, {At: "hello.3", Until: "h.2"},
 		{At: "hello.1", Until: "a.0.3.0"}, {At: "accepted.0.1.0", Until: "snap.0"}}
-	return []caseSpec{w1, w2, w3}
+	// Props/C19.lean dropRun (C19_hello_reader_drops_early_data): party 1 has
+	// nothing to accept, returns from Connect as soon as it has dialled and
+	// sends at once; every Accept of the higher parties and of the leader is
+	// held until party 1's first bursts are flushed, so the data waits in the
+	// sockets together with the hellos.
+	var ws []caseSpec
+	for wi, class := range []string{"tiny", "mixed", "kb"} {
+		w4 := base("early-data", 3+wi%2, 2)
+		w4.Data = &dataSpec{Class: class, Seed: uint64(1000 + wi), Bursts: 1 + wi%2, Flush: []string{"end", "each"}[wi%2],
+			QuietMs: 4000}
+		for j := 2; j < w4.N; j++ {
+			w4.Gates = append(w4.Gates, gate{At: fmt.Sprintf("accept.%d", j), Until: "sent.1"})
+		}
+		ws = append(ws, w4)
+	}
+	return append([]caseSpec{w1, w2, w3}, ws...)
 }
 
 func witnessMain(args []string) int {
@@ -395,8 +514,7 @@ func witnessMain(args []string) int {
 			cs.Idx = rep*10 + wi
 			cs.Port = 10000 + ((pid*131+7*rep+wi+2000)%2750)*8
 			res := runChild(self, cs)
-			op := fmt.Sprintf("c19 %d %d %s strict", cs.N, cs.M, res.Trace)
-			o.Op(op, "run=ok end="+res.End)
+			o.Op(opLine(cs, res), resultLine(cs, res))
 			o.Count("witness_sessions")
 			kinds := map[string]bool{}
 			for _, f := range res.Fails {
@@ -413,6 +531,8 @@ func witnessMain(args []string) int {
 				ok = res.End == "deadlock" && kinds["hang"]
 			case "early-return":
 				ok = res.End == "final" && kinds["incomplete-at-return"]
+			case "early-data":
+				ok = kinds["data-lost"] || kinds["data-wrong"]
 			case "bad-list":
 				ok = res.End == "error"
 				found := false
@@ -444,6 +564,53 @@ func witnessMain(args []string) int {
 			}
 			o.Sample(map[string]any{"witness": cs.Name, "end": res.End, "trace": clip(res.Trace, 400),
 				"kinds": fmt.Sprint(kinds)})
+		}
+	}
+	return 0
+}
+
+// ---------------------------------------------------------------- replay
+
+// replayMain re-runs exactly one recorded session: `-extra <replay file>`
+// (replays/C19-*.json: failure.spec is the caseSpec of the failing session,
+// including its delay seed, start offsets, gates and data plan).  What the OS
+// scheduler adds is not recorded, so the session is run up to -n times and
+// stops at the first run that fails again.  Exit code 1 = failed again.
+func replayMain(args []string) int {
+	cf, o := hxlib.ParseCommon("c19", args, nil)
+	defer o.Close()
+	raw, err := os.ReadFile(cf.Extra)
+	if err != nil {
+		fmt.Fprintln(os.Stderr, "replay:", err)
+		return 2
+	}
+	var rf struct {
+		Failure struct {
+			Spec string `json:"spec"`
+			Sig  string `json:"sig"`
+		} `json:"failure"`
+	}
+	var cs caseSpec
+	if err := json.Unmarshal(raw, &rf); err != nil || json.Unmarshal([]byte(rf.Failure.Spec), &cs) != nil || cs.N < 2 {
+		fmt.Fprintln(os.Stderr, "replay: no session spec in", cf.Extra)
+		return 2
+	}
+	self, err := os.Executable()
+	if err != nil {
+		panic(err)
+	}
+	pid := os.Getpid()
+	for try := 0; try < cf.N; try++ {
+		cs.Port = 10000 + ((pid*131+try)%2750)*8
+		res := runChild(self, cs)
+		emit(o, cs.Idx, cs, res)
+		o.Count("replay_runs")
+		fmt.Printf("replay run %d of session %d (n=%d m=%d mode=%s profile=%s data=%v): end=%s data=%s failures=%d\n",
+			try+1, cs.Idx, cs.N, cs.M, cs.Mode, cs.Profile, cs.Data != nil, res.End, res.Data, len(res.Fails))
+		if len(res.Fails) > 0 {
+			b, _ := json.Marshal(res.Fails[0])
+			fmt.Println("  " + clip(string(b), 1500))
+			return 1
 		}
 	}
 	return 0
